@@ -636,8 +636,11 @@ pub fn status_variant(dbg: &str) -> String {
 /// Run the real repair (`ArchiveFailSafeReader::convert_to_archive`) on `src`.
 /// Err(("open", msg)) if the fail-safe reader could not be created,
 /// Err(("convert", msg)) if convert_to_archive returned Err.
+/// name of the entry that half of the repairs put into the output writer before converting
+pub const PREPOPULATED: &str = "\u{1}verif-note-present-before-the-repair";
+
 pub fn repair_from<R: Read>(src: R, key_indices: &[usize], unauthenticated: bool) -> Result<RepairResult, (String, String)> {
-    repair_route(src, key_indices, unauthenticated, 1)
+    repair_route(src, key_indices, unauthenticated, 4)
 }
 
 /// `route` selects how the reader configuration reaches the requested mode: 0 = the authenticated mode is
@@ -672,6 +675,11 @@ pub fn repair_route<R: Read>(src: R, key_indices: &[usize], unauthenticated: boo
     let mut wc = ArchiveWriterConfig::new();
     wc.set_layers(Layers::EMPTY);
     let mut w = ArchiveWriter::from_config(sink.clone(), wc).map_err(|e| ("writer".to_string(), format!("{e:?}")))?;
+    if route % 2 == 1 {
+        // the output writer is the caller's: here it already holds an entry (so the ids it hands out differ
+        // from the ids of the source archive). `sweep` drops this entry before judging.
+        w.add_file(PREPOPULATED, 4, &b"note"[..]).map_err(|e| ("writer".to_string(), format!("{e:?}")))?;
+    }
     let st = fs.convert_to_archive(&mut w).map_err(|e| ("convert".to_string(), format!("{e:?}")))?;
     let status_debug = format!("{st:?}");
     let mut unfinished = Vec::new();
